@@ -110,22 +110,24 @@ __CPROVER_decreases(buffers.count - verif_i)
 def read_all_rules():
     return [
         # function-local `static const` -> constant (dfcc would havoc the static)
-        Rule(r'static const ssize_t read_size = ([^;]+);', r'enum { read_size = \1 };', count=1, regex=True),
-        Rule(r'vector<string> buffers;', 'vsv buffers; vsv_init(&buffers);', count=1, regex=True),
-        Rule(r'buffers\.emplace_back\(', 'vsv_emplace_back(&buffers, ', count=1, regex=True),
-        Rule('buffers.back().data()', 'vsv_back_data(&buffers)', count=1),
+        Rule(r'static const ssize_t read_size = ([^;]+);', r'enum { read_size = \1 };', count=None, regex=True),
+        Rule(r'vector<string> buffers;', 'vsv buffers; vsv_init(&buffers);', count=None, regex=True),
+        Rule(r'buffers\.emplace_back\(', 'vsv_emplace_back(&buffers, ', count=None, regex=True),
+        Rule('buffers.back().data()', 'vsv_back_data(&buffers)', count=None),
+        # one overload written in terms of the other
+        Rule(r'\breturn read_all\(([^;]*)\);', r'{ phosg_read_all_fd(ret, \1); return; }', count=None, regex=True),
         SYS('+'),
         Rule(r'buffers\.back\(\)\.resize\(', 'vsv_back_resize(&buffers, ', count=None, regex=True),
         Rule('buffers.size()', 'vsv_size(&buffers)', count=None),
         Rule(r'return (?:move\()?buffers\.back\(\)\)?;', '{ vsv_copy_back(ret, &buffers); return; }', count=None, regex=True),
         Rule(r'return (?:move\()?buffers\.front\(\)\)?;', '{ vsv_front_out(ret, &buffers); return; }', count=None, regex=True),
-        Rule(r'string ret;', '', count=1, regex=True),
-        Rule(r'ret\.reserve\(', 'vsv_reserve(ret, ', count=1, regex=True),
+        Rule(r'string ret;', '', count=None, regex=True),
+        Rule(r'ret\.reserve\(', 'vsv_reserve(ret, ', count=None, regex=True),
         Rule(r'for \(const string& (\w+) : buffers\) \{',
              r'g_it_next = 0; g_it_prefix = 0; for (size_t verif_i = 0; verif_i < vsv_size(&buffers); verif_i++) { const vstr* \1 = vsv_at(&buffers, verif_i);',
-             count=1, regex=True),
-        Rule(r'ret \+= (\w+);', r'vstr_append(ret, \1->data, \1->size);', count=1, regex=True),
-        Rule('return ret;', 'return;', count=1),
+             count=None, regex=True),
+        Rule(r'ret \+= (\w+);', r'vstr_append(ret, \1->data, \1->size);', count=None, regex=True),
+        Rule('return ret;', 'return;', count=None),
     ]
 
 
@@ -134,8 +136,12 @@ def loops_unit(ctx, src):
     u.raw('#include "stubs/C14_io.h"\n#include "stubs/C14_vsv.h"\n')
     u.function(src, CC, r'string read_all\(int fd\)', new_header='void phosg_read_all_fd(vstr* ret, int fd)',
                rules=read_all_rules(), ret_zero='', nloops=2, loops={1: READ_ALL_LOOP1, 2: READ_ALL_LOOP2})
+    # (the block loops carry loop contracts; an overload that has no loops of its own -- e.g. written in terms of the other one -- has none)
+    from vf import lex
+    _, fbody, _, _ = lex.find_def(src.text(CC), r'string read_all\(FILE\* f\)', 'read_all(FILE*)')
+    nl = len(lex.find_loops(fbody))
     u.function(src, CC, r'string read_all\(FILE\* f\)', new_header='void phosg_read_all_file(vstr* ret, C14_FILE* f)',
-               rules=read_all_rules(), ret_zero='', nloops=2, loops={1: READ_ALL_LOOP1, 2: READ_ALL_LOOP2})
+               rules=read_all_rules(), ret_zero='', nloops=nl, loops={1: READ_ALL_LOOP1, 2: READ_ALL_LOOP2} if nl == 2 else {})
     u.function(src, CC, r'string fgets\(FILE\* f\)', new_header='void phosg_fgets(vstr* ret, C14_FILE* f)', ret_zero='', nloops=1, loops={1: FGETS_LOOP},
                rules=[Rule(r'deque<string> blocks;', 'vsv blocks; vsv_init(&blocks);', count=1, regex=True),
                       Rule(r'string& block = blocks\.emplace_back\(', 'vsv_emplace_back(&blocks, ', count=1, regex=True),
@@ -285,11 +291,12 @@ def plan(ctx):
     HL = 'harness/C14/loops.c'
     VS = ['vstr_assign', 'vstr_append', 'vsv_at']
     groups.append(Group(name='Filesystem.read_all(fd)', harness=HL, entry='h_read_all_fd', function='read_all(int)', enforce='phosg_read_all_fd',
-                        replace=['c14_read'] + VS, loops=True, kind='loop-contract', timeout=300, fallback_unwind=4,
+                        replace=['c14_read'] + VS, loops=True, kind='loop-contract', timeout=300, fallback_unwind=4, object_bits=12,
                         clause_note='returns exactly the g_src_len bytes of the ghost stream, only after read() reported end-of-file; io_error iff read() failed',
                         replay=Replay(driver='C14/fs.cc', mode='read_all_fd', sources=ALL_LIB, small_define='VERIF_SMALL')))
     groups.append(Group(name='Filesystem.read_all(FILE*)', harness=HL, entry='h_read_all_file', function='read_all(FILE*)', enforce='phosg_read_all_file',
-                        replace=['c14_fread'] + (['c14_ferror'] if 'c14_ferror(' in ul.text().split('phosg_read_all_file')[1] else []) + VS, loops=True, kind='loop-contract', timeout=300, fallback_unwind=4,
+                        replace=[f for f in ('c14_fread', 'c14_read', 'c14_fileno', 'c14_ferror')
+                                 if f + '(' in ul.text().split('void phosg_read_all_file(')[1] or (f == 'c14_read' and 'phosg_read_all_fd(' in ul.text().split('void phosg_read_all_file(')[1])] + VS, loops=True, kind='loop-contract', timeout=300, fallback_unwind=4, object_bits=12,
                         replay=Replay(driver='C14/fs.cc', mode='read_all_file', sources=ALL_LIB, small_define='VERIF_SMALL')))
     groups.append(Group(name='Filesystem.fgets(FILE*)', harness=HL, entry='h_fgets', function='fgets(FILE*)', enforce='phosg_fgets',
                         replace=['c14_fgets', 'c14_feof', 'c14_strlen', 'vsv_concat_out'], loops=True, kind='loop-contract', timeout=300, fallback_unwind=5,
